@@ -65,6 +65,7 @@ type c02Oracle struct {
 	negDNDay  bool
 	day       int
 	unstable  bool
+	appliedMM float64 // irrigation water carried out today (mm)
 }
 
 func (o *c02Oracle) irrN(zeit int) float64 {
@@ -72,10 +73,41 @@ func (o *c02Oracle) irrN(zeit int) float64 {
 	if !o.w.IrrOn {
 		return 0 // the polygon file switches the field's irrigation schedule off
 	}
+	var today []IrrEvent
 	for _, e := range o.w.Irr {
 		if int(e.Day) == zeit {
-			n += float64(e.NO3) * float64(e.MM) * 0.01 // mg/l * l/m2 = mg/m2 = 0.01 kg/ha
+			today = append(today, e)
 		}
+	}
+	pairs := false
+	for i := 1; i < len(o.w.Irr); i++ {
+		pairs = pairs || o.w.Irr[i].Day == o.w.Irr[i-1].Day
+	}
+	if pairs && len(today) == 1 && o.appliedMM == 0 {
+		// a schedule with two gifts on one day: the model carries out one irrigation per day and may leave later gifts
+		// undone (C10 states that limit and judges the actions); no water today, no irrigation N today
+		return 0
+	}
+	if len(today) > 1 {
+		// several gifts dated on one day: the model carries out one irrigation per day (C10 states that limit). The N that
+		// enters is the N dissolved in the water that entered: the gifts whose amounts add up to the irrigation water of the day
+		applied := o.appliedMM
+		for mask := 1; mask < 1<<len(today); mask++ {
+			mm, nn := 0.0, 0.0
+			for i, e := range today {
+				if mask&(1<<i) != 0 {
+					mm += float64(e.MM)
+					nn += float64(e.NO3) * float64(e.MM) * 0.01
+				}
+			}
+			if math.Abs(mm-applied) < 1e-9 {
+				return nn
+			}
+		}
+		return math.NaN() // the water of the day matches no combination of the gifts: judged by C01/C10, not here
+	}
+	for _, e := range today {
+		n += float64(e.NO3) * float64(e.MM) * 0.01 // mg/l * l/m2 = mg/m2 = 0.01 kg/ha
 	}
 	return n
 }
@@ -96,14 +128,20 @@ func (o *c02Oracle) Probe(pt string, zeit, subd int, wdt float64, g *G, w *herme
 			o.hit("days.overwrite-excluded")
 			return
 		}
+		o.appliedMM = 0
+		if g.ZTBR[max(g.NBR-2, 0)] == zeit {
+			o.appliedMM = g.EffectiveIRRIG * 10 // an irrigation was carried out today (the cursor has moved past an event of today)
+		}
 		want := g.DEPOS/365 + o.irrN(zeit)
 		got := o.evatra.sumC1 - o.dayStart.sumC1
-		if math.Abs(got-want) > tol(o.evatra.sumC1, o.dayStart.sumC1, want) {
+		if math.IsNaN(want) {
+			o.hit("days.same-day-gifts-not-attributable")
+		} else if math.Abs(got-want) > tol(o.evatra.sumC1, o.dayStart.sumC1, want) {
 			o.violate("surface-input", "deposition-plus-irrigation-N", zeit,
 				fmt.Sprintf("before the water step mineral N changed by %.12g kg/ha; deposition %.12g + irrigation N %.12g = %.12g", got, g.DEPOS/365, o.irrN(zeit), want),
 				map[string]float64{"got": got, "want": want})
 		}
-		if o.irrN(zeit) > 0 {
+		if v := o.irrN(zeit); v > 0 {
 			o.hit("reach.irrigation-n")
 		}
 	case "nitro.pre":
@@ -309,6 +347,18 @@ func init() {
 				w.Cfg.GroundWater = "soilfile"
 				w.GWSeries = nil
 				w.Weather.Events = append(w.Weather.Events, WeatherEvent{Day: w.Start() + Day(r.Range(1, 300)), Kind: "rain", Val: float64(r.Range(40, 300))})
+			}
+			// stratum: two irrigation gifts of the field dated on the same day with different nitrate concentrations
+			if len(w.Irr) > 0 && r.Bool(0.2) {
+				w.IrrOn, w.Cfg.AutoIrr = true, false
+				k := r.Intn(len(w.Irr))
+				dup := w.Irr[k]
+				dup.MM = r.PickI([]int{10, 15, 25, 40})
+				dup.NO3 = r.PickI([]int{0, 30, 80, 150})
+				if dup.NO3 == w.Irr[k].NO3 {
+					dup.NO3 += 45
+				}
+				w.Irr = append(w.Irr[:k+1], append([]IrrEvent{dup}, w.Irr[k+1:]...)...)
 			}
 			return &Scenario{Prop: "C02", Kind: "single", World: w, Bug: genBug(r.Sub("bug", 0), false)}
 		},
